@@ -2064,6 +2064,9 @@ read_dns(int fd, struct dnsfd *dns_fds, int tun_fd, struct query *q)
 #endif /* !WINDOWS32 */
 
 	if (r > 0) {
+		/* Raw packets are stored as the user's query without being
+		   decoded, make sure no old query is left in there */
+		memset(q, 0, sizeof(*q));
 		memcpy((struct sockaddr*)&q->from, (struct sockaddr*)&from, addrlen);
 		q->fromlen = addrlen;
 
